@@ -58,7 +58,12 @@ def gaussian_frechet_distance(
         msg = "Inputs cov_x and cov_y must be finite (no NaN or infinite entries)."
         raise ValueError(msg)
 
+    cov_prod = cov_x @ cov_y
+    if not torch.isfinite(cov_prod).all():
+        msg = "The product of cov_x and cov_y overflows the working precision (non-finite entries)."
+        raise ValueError(msg)
+
     a = (mu_x - mu_y).square().sum()
     b = cov_x.trace() + cov_y.trace()
-    c = torch.linalg.eigvals(cov_x @ cov_y).sqrt().real.sum()
+    c = torch.linalg.eigvals(cov_prod).sqrt().real.sum()
     return a + b - 2 * c
